@@ -332,6 +332,18 @@ func (st *Store) Eq(a, b *Term) *Term {
 	return st.mk("=", BoolSort, "", nil, 0, 0, a, b)
 }
 
+// RawEq builds an equality without the injective-hash / concat rewrites
+// (used for the injectivity axioms themselves).
+func (st *Store) RawEq(a, b *Term) *Term {
+	if a == b {
+		return st.Bool(true)
+	}
+	if a.id > b.id {
+		a, b = b, a
+	}
+	return st.mk("=", BoolSort, "", nil, 0, 0, a, b)
+}
+
 // bvBin builds a binary bit-vector operation with constant folding.
 func (st *Store) bvBin(op string, a, b *Term) *Term {
 	if a.sort != b.sort {
@@ -578,6 +590,13 @@ func (st *Store) Concat(hiT, loT *Term) *Term {
 	// concat(extract(x,h,m+1), extract(x,m,l)) = extract(x,h,l)
 	if hiT.op == "extract" && loT.op == "extract" && hiT.args[0] == loT.args[0] && hiT.lo == loT.hi+1 {
 		return st.Extract(hiT.args[0], hiT.hi, loT.lo)
+	}
+	// concat(concat(X, e1), e2) with adjacent extracts e1,e2 -> concat(X, e12)
+	if hiT.op == "concat" && loT.op == "extract" {
+		in := hiT.args[1]
+		if in.op == "extract" && in.args[0] == loT.args[0] && in.lo == loT.hi+1 {
+			return st.Concat(hiT.args[0], st.Extract(in.args[0], in.hi, loT.lo))
+		}
 	}
 	if hiT.op == "const" && hiT.val.Sign() == 0 {
 		return st.ZeroExt(loT, hiT.sort.W)
